@@ -152,7 +152,7 @@ ks = json.load(open(os.path.join(S, 'known_findings.json')))
 k = json.load(open(os.path.join(V, 'known_findings.json')))
 ids = [x['id'] for x in k['findings']]
 for f in ks.get('findings', []):
-    if f['id'] not in ids:
+    if f['id'] not in ids and f.get('property') == pid:
         k['findings'].append(f)
         print('  known finding', f['id'])
 for f in ks.get('fixed', []):
